@@ -89,7 +89,7 @@ func c18CLI(c *Ctx, run *ev.Run) {
 		}
 		_ = os.WriteFile(targets, []byte(tt), 0o644)
 		out := filepath.Join(dir, "out.gob")
-		args := append([]string{"attack", "-targets", targets, "-rate", "0", "-workers", "16", "-max-workers", "16", "-duration", "250ms", "-output", out, "-resolvers", fd.addr}, cs.Args...)
+		args := append([]string{"attack", "-targets", targets, "-rate", "0", "-workers", "16", "-max-workers", "16", "-duration", "80ms", "-output", out, "-resolvers", fd.addr}, cs.Args...)
 		waitForPorts(run, 14000, 90*time.Second)
 		cmd := exec.Command(bin, args...)
 		logp := filepath.Join(dir, fmt.Sprintf("race-%d", i))
